@@ -75,6 +75,10 @@ func replayHistory(ctx *evid.Ctx, priv bool, ops []kmodel.Op, st *c09Stats) {
 	if hr.TimedOut {
 		atomic.AddInt64(&st.hung, 1)
 	}
+	if p := loadPanic(hr.Results); p != "" {
+		ctx.Violation("C09:load-panicked", fmt.Sprintf("LoadFilter neither returned nil nor an error, it panicked (%s) in history [%s]", p, histString(ops)), map[string]any{"privileged": priv, "history": ops})
+		return
+	}
 	if len(hr.Results) < want && len(hr.Results) < len(sc.Ops) {
 		// the child died in the middle of the script: which operation was it executing?
 		dying := sc.Ops[len(hr.Results)]
